@@ -494,8 +494,8 @@ fn c08_p3_one_change_c() {
 }
 
 // Two changes in ONE notification (the second relative to the result of the first) were tried in
-// six reductions - down to a concrete text, a concrete first change and only the positions of the
-// second change symbolic - and every one exhausted 30 GB in CBMC's propositional reduction (the
+// seven reductions - down to a concrete text, a concrete first change and only the positions of the
+// second change symbolic, and a deletion-only batch without any heap string - and every one exhausted 30 GB in CBMC's propositional reduction (the
 // second iteration of the real closure works on heap objects that have been moved by the first).
 // Batches are therefore OUTSIDE this claim; see DESIGN (C08, "what is not decided").
 
